@@ -42,6 +42,7 @@ pub fn run(args: &crate::Args) {
                     };
                     (true, rec.toks, cfg)
                 }
+                Err(parol_runtime::ParolError::UserError(e)) => (false, rec.toks, format!("SEMANTIC-ERROR {e}")),
                 Err(_) => (false, rec.toks, String::new()),
             }
         });
